@@ -85,8 +85,18 @@ fn plan_c17(seed: u64, tier: &str) -> Plan {
         let every_ms = (lease_ms / r.range(2, 5)).max(1);
         let count = r.range(1, 6) as u32;
         let start_us = r.range(0, 2_000_000);
-        clients.push(script(vec![Op::Sleep { us: start_us }, Op::ForeignSpdp { id, dst_p: dst.p, domain: dst.domain, domain_in_msg, tag: tag.clone(), lease_ms, every_ms, count }]));
-        end_ms = end_ms.max(start_us / 1000 + every_ms * count as u64 + lease_ms + 1000);
+        let mut ops = vec![Op::Sleep { us: start_us }, Op::ForeignSpdp { id, dst_p: dst.p, domain: dst.domain, domain_in_msg, tag: tag.clone(), lease_ms, every_ms, count, sn0: 0 }];
+        let mut t_ms = start_us / 1000 + every_ms * count as u64;
+        if lease_ms <= 10_000 && r.chance(0.5) {
+            // silent for longer than its lease (so it is removed), then its announcements get through again
+            let silence = lease_ms + r.range(200, 2000);
+            let count2 = r.range(1, 4) as u32;
+            ops.push(Op::Sleep { us: silence * 1000 });
+            ops.push(Op::ForeignSpdp { id, dst_p: dst.p, domain: dst.domain, domain_in_msg, tag: tag.clone(), lease_ms, every_ms, count: count2, sn0: count as i64 + r.range(0, 5) as i64 });
+            t_ms += silence + every_ms * count2 as u64;
+        }
+        clients.push(script(ops));
+        end_ms = end_ms.max(t_ms + lease_ms + 1000);
         foreign.push(Foreign { id, dst_p: dst.p, domain_in_msg, tag, lease_ms });
     }
     // ignore operations
@@ -240,6 +250,25 @@ fn check_c17(plan: &Plan, out: &Outcome) -> Verdict {
         }
     });
     let dropped = out.stats.get("net.drop").copied().unwrap_or(0);
+    // probe: a foreign participant that was listed, dropped and listed again
+    let relisted = with_hist(|h| {
+        let mut n = 0u64;
+        for f in &p.foreign {
+            let fh = foreign_handle(f.id);
+            let tl: Vec<bool> = h.discovery_log.iter().filter(|e| e.2 == f.dst_p).map(|e| e.3.contains(&fh)).collect();
+            let mut seq = vec![];
+            for x in tl {
+                if seq.last() != Some(&x) {
+                    seq.push(x);
+                }
+            }
+            if seq.windows(3).any(|w| w == [true, false, true]) {
+                n += 1;
+            }
+        }
+        n
+    });
+    v.probe("rediscovered_after_expiry", relisted);
     v.probe("lease_expired", lease_expired);
     v.probe("same_domain_pairs", same_pairs);
     v.probe("ignored_while_announcing", ignored_announcing);
